@@ -51,6 +51,24 @@ def checkedMul (site : String) (a b : Nat) : PM Nat :=
 
 def magic (bin : Bool) : VBytes := if bin then [97, 105, 103] else [97, 97, 103]
 
+/-- The `loop { … break }` block of `Header::parse`: up to four optional counts, each introduced by
+a space; the first newline ends the header. -/
+def headerOptional (h : Header) : PM Header := do
+  if !(← requiredNewlineOrSpace) then pure h else
+  let badCount ← headerField usizeMax
+  let h := { h with badCount }
+  if !(← requiredNewlineOrSpace) then pure h else
+  let constraintCount ← headerField usizeMax
+  let h := { h with constraintCount }
+  if !(← requiredNewlineOrSpace) then pure h else
+  let justiceCount ← headerField usizeMax
+  let h := { h with justiceCount }
+  if !(← requiredNewlineOrSpace) then pure h else
+  let fairnessCount ← headerField usizeMax
+  let h := { h with fairnessCount }
+  requiredNewline
+  pure h
+
 /-- `Header::parse::<L>`. -/
 def Header.parse (bin : Bool) (l : LitTy) : PM Header := do
   orGiveUp (fixed (magic bin)) unexpected
@@ -68,21 +86,7 @@ def Header.parse (bin : Bool) (l : LitTy) : PM Header := do
   requiredSpace
   let andGateCount ← headerField limit
   let h : Header := { maxVarIndex, inputCount, latchCount, outputCount, andGateCount }
-  -- the `loop { … break }` block
-  if !(← requiredNewlineOrSpace) then return h
-  let badCount ← headerField usizeMax
-  let h := { h with badCount }
-  if !(← requiredNewlineOrSpace) then return h
-  let constraintCount ← headerField usizeMax
-  let h := { h with constraintCount }
-  if !(← requiredNewlineOrSpace) then return h
-  let justiceCount ← headerField usizeMax
-  let h := { h with justiceCount }
-  if !(← requiredNewlineOrSpace) then return h
-  let fairnessCount ← headerField usizeMax
-  let h := { h with fairnessCount }
-  requiredNewline
-  pure h
+  headerOptional h
 
 /-- `Parser<'a, L>` minus the reader (threaded by the monad); `code` exists in `binary.rs` only. -/
 structure Parser where
